@@ -710,3 +710,15 @@ Definition tz_lock_calls : list string :=
 Definition tz_unguarded (fns : list lkfn) (refs : list (string * list string)) (reach : list string) : list string :=
   flat_map (fun e => if str_in (fst e) reach && existsb (fun f => str_in f tz_lock_calls) (snd e) && negb (str_in (fst e) (guard_names fns))
                      then [fst e] else []) refs.
+
+(** ** every function of tsrm.c that takes the repository mutex gives it back on every path: each function, analysed on its own (calls inlined),
+    returns at the lock depth it was entered with - also on early returns.  The two fork handlers that hold the mutex across fork() by design
+    (prepare takes it, parent releases it) are judged by [handlers_of]; the helper with the "already locked" flag is analysed for both flag values. *)
+Definition balanced_fn (fns : list lkfn) (f : lkfn) (args : list karg) : bool :=
+  match disc 200 fns args 0 None 0 (norm (lk_body f)) with Some (0, _, _) => true | _ => false end.
+Definition balanced_ok (fns : list lkfn) : bool :=
+  forallb (fun f =>
+             if str_in (lk_name f) (handler_names fns) then true
+             else if String.eqb (lk_name f) "snoopy_tsrm_doesThreadRepoEntryExist"
+                  then balanced_fn fns f [KOpaque; KInt 1] && balanced_fn fns f [KOpaque; KInt 0]
+                  else balanced_fn fns f (repeat KOpaque (lk_nparams f))) fns.
